@@ -22,6 +22,6 @@ Deliver, in {wt}/SEED_OUT/:
   3. meta.json with keys: property ("{pid}"), summary (what the change does), needs (what exactly is required for the breakage to manifest), files_changed, demo_cmd (exact command to run the demonstration from the worktree root), demo_fails_with_change, demo_passes_without_change, suite_passes_with_change (the summary line you observed), observed.
 
 You MUST verify all of this yourself in the worktree:
-  - with the change: `cargo build --workspace --offline -j 6` succeeds, and the whole existing suite passes: `cargo nextest run --workspace --no-fail-fast --offline --test-threads 6 -j 6` (expect 358 tests passed; if nextest is unavailable use `cargo test --workspace --no-fail-fast --offline -j 6`). If any existing test fails, your change is too visible: pick another.
+  - with the change: `cargo build --workspace --offline -j 6` succeeds, and the whole existing suite passes: `cargo nextest run --workspace --no-fail-fast --offline --test-threads 6 --build-jobs 6` (expect 358 tests passed; if nextest is unavailable use `cargo test --workspace --no-fail-fast --offline -j 6`). If any existing test fails, your change is too visible: pick another.
   - with the change the demonstration fails; without it (git stash / git checkout of the source files) the demonstration passes.
 Leave the worktree with your change applied and the demonstration file NOT committed. Finish with a short report: the patch, what it needs to manifest, and the exact outputs you observed. Do not remove the worktree.""")
